@@ -3,5 +3,5 @@
 B=$(/verif/build.sh plain) || exit 2
 P=$1; S=$2; T=${3:-10s}; TIER=${4:-quick}
 D=/dev/shm/verif-dev/out-$P; rm -rf $D; mkdir -p $D
-for w in $(seq 0 15); do $B/mosssim -prop $P -seed $S -tier $TIER -start $w -stride 16 -budget $T -maxviol 1000 -outdir $D/rp > $D/w$w.jsonl 2>$D/w$w.err & done; wait
+for w in $(seq 0 15); do GOMAXPROCS=1 $B/mosssim -prop $P -seed $S -tier $TIER -start $w -stride 16 -budget $T -maxviol 1000 -outdir $D/rp > $D/w$w.jsonl 2>$D/w$w.err & done; wait
 cat $D/w*.jsonl | /verif/scripts/summ.py; cat $D/w*.err | head -20
